@@ -542,13 +542,124 @@ fn gen_class(r: &mut Rng, depth: usize) -> String {
     s
 }
 
+/// character classes with NAMED items (C08: "a named item contributes exactly the set it denotes when used alone"): the reference evaluates the
+/// boolean combination itself and asks the crate only for the named item alone
+#[derive(Debug, Clone)]
+enum Cx { Lit(char), Range(char, char), Named(String), Br(bool, Vec<Cx>, Option<(String, Box<Cx>)>) }
+
+fn parse_cx(cs: &[char], i: &mut usize) -> Cx {
+    // cs[*i] == '['
+    *i += 1;
+    let neg = if cs[*i] == '^' { *i += 1; true } else { false };
+    let mut items = vec![];
+    let mut op = None;
+    loop {
+        let c = cs[*i];
+        if c == ']' { *i += 1; break; }
+        if c == '[' && cs[*i + 1] == ':' {
+            let j = (*i..cs.len()).find(|k| cs[*k] == ']' ).unwrap();
+            items.push(Cx::Named(cs[*i..=j].iter().collect()));
+            *i = j + 1;
+        } else if c == '[' {
+            items.push(parse_cx(cs, i));
+        } else if c == '\\' {
+            let n = cs[*i + 1];
+            if (n == 'p' || n == 'P') && cs[*i + 2] == '{' {
+                let j = (*i..cs.len()).find(|k| cs[*k] == '}').unwrap();
+                items.push(Cx::Named(cs[*i..=j].iter().collect()));
+                *i = j + 1;
+            } else if n == 'p' || n == 'P' {
+                items.push(Cx::Named(cs[*i..*i + 3].iter().collect()));
+                *i += 3;
+            } else {
+                items.push(Cx::Named(cs[*i..*i + 2].iter().collect()));
+                *i += 2;
+            }
+        } else if (c == '&' || c == '-' || c == '~') && cs[*i + 1] == c {
+            let o: String = cs[*i..*i + 2].iter().collect();
+            *i += 2;
+            let rhs = parse_cx(cs, i);
+            op = Some((o, Box::new(rhs)));
+        } else if cs[*i + 1] == '-' && cs[*i + 2] != ']' && cs[*i + 2] != '-' {
+            items.push(Cx::Range(c, cs[*i + 2]));
+            *i += 3;
+        } else {
+            items.push(Cx::Lit(c));
+            *i += 1;
+        }
+    }
+    Cx::Br(neg, items, op)
+}
+
+fn eval_cx(x: &Cx, ch: char, alone: &mut std::collections::HashMap<String, scnr::Scanner>) -> Result<bool, String> {
+    Ok(match x {
+        Cx::Lit(c) => *c == ch,
+        Cx::Range(a, b) => *a <= ch && ch <= *b,
+        Cx::Named(n) => {
+            if !alone.contains_key(n) {
+                let p = if n.starts_with('[') { format!("[{}]", n) } else { n.clone() };
+                let sc = build(&[ModeSpec { name: "M0".into(), pats: vec![PatSpec { p, tt: 0, la: None }], trans: vec![] }]).map_err(|e| format!("build of {n} alone failed: {e}"))?;
+                alone.insert(n.clone(), sc);
+            }
+            alone[n].find_iter(&ch.to_string()).next().is_some()
+        }
+        Cx::Br(neg, items, op) => {
+            let mut v = false;
+            for it in items { v = v || eval_cx(it, ch, alone)?; }
+            if let Some((o, rhs)) = op {
+                let w = eval_cx(rhs, ch, alone)?;
+                v = match o.as_str() { "&&" => v && w, "--" => v && !w, _ => v != w };
+            }
+            v != *neg
+        }
+    })
+}
+
+fn run_named_class_case(c: &Case) -> Result<(), String> {
+    let r = catch_unwind(AssertUnwindSafe(|| {
+        let p = &c.modes[0].pats[0].p;
+        let cs: Vec<char> = p.chars().collect();
+        let mut i = 0;
+        let x = parse_cx(&cs, &mut i);
+        let sc = build(&c.modes).map_err(|e| format!("build failed: {e}"))?;
+        let mut alone = std::collections::HashMap::new();
+        for ch in c.input.chars() {
+            let s = ch.to_string();
+            let got = sc.find_iter(&s).next().is_some();
+            let exp = eval_cx(&x, ch, &mut alone)?;
+            if got != exp {
+                return Err(format!("class {} on {:?}: scnr matches = {}, boolean combination of its items (named items evaluated alone) = {}", p, ch, got, exp));
+            }
+        }
+        Ok(())
+    }));
+    match r { Ok(x) => x, Err(_) => Err("PANIC".into()) }
+}
+
+fn gen_named_class(r: &mut Rng, depth: usize) -> String {
+    const ATOMS: &[&str] = &["a", "c-e", "0-4", "_", "é", "\\d", "\\D", "\\s", "\\S", "\\w", "\\W", "[:alpha:]", "[:^alpha:]", "[:digit:]", "[:space:]", "[:upper:]", "[:^lower:]",
+        "\\pL", "\\PL", "\\pN", "\\p{Lowercase}", "\\P{Uppercase}", "\\p{White_Space}"];
+    let mut s = String::from("[");
+    if r.below(2) == 0 { s.push('^'); }
+    let n = 1 + r.below(3);
+    for _ in 0..n {
+        if depth > 0 && r.below(3) == 0 { s.push_str(&gen_named_class(r, depth - 1)); } else { s.push_str(*r.pick(ATOMS)); }
+    }
+    if depth > 0 && r.below(3) == 0 {
+        s.push_str(*r.pick(&["&&", "--", "~~"]));
+        s.push_str(&gen_named_class(r, depth - 1));
+    }
+    s.push(']');
+    s
+}
+
 /// unsupported features (C15): input holds "ok" or "err": whether the single pattern must build
 fn run_unsupported_case(c: &Case) -> Result<(), String> {
     let r = catch_unwind(AssertUnwindSafe(|| {
         let built = build(&c.modes).is_ok();
         let want = c.input == "ok";
         if built != want {
-            return Err(format!("pattern {:?}: build is_ok = {}, expected {}", c.modes[0].pats[0].p, built, want));
+            return Err(format!("patterns {:?}: build is_ok = {}, expected {}", c.modes[0].pats.iter().map(|p| (p.p.clone(), p.la.clone())).collect::<Vec<_>>(), built, want));
         }
         Ok(())
     }));
@@ -569,7 +680,8 @@ fn gen_supported(r: &mut Rng, depth: usize) -> String {
 }
 /// plants one unsupported construct somewhere
 fn gen_unsupported(r: &mut Rng, depth: usize) -> String {
-    const BAD: &[&str] = &["^", "$", "\\b", "\\B", "(?i)", "a*?", "a+?", "a??", "(?i:a)", "a{1,2}?", "\\A", "\\z", "(?s-i:b)", "(?-i:a)", "(?-ms:a.b)", "(?i-s:a)", "(?x)", "(?U:a)"];
+    const BAD: &[&str] = &["^", "$", "\\b", "\\B", "(?i)", "a*?", "a+?", "a??", "(?i:a)", "a{1,2}?", "\\A", "\\z", "(?s-i:b)", "(?-i:a)", "(?-ms:a.b)", "(?i-s:a)", "(?x)", "(?U:a)",
+        "\\pl", "\\p{alphabetic}", "\\p{Foo}", "\\pX", "\\p{scx=Latin}", "\\p{sc=Greek}", "\\P{uppercase}"];
     if depth == 0 { return r.pick(BAD).to_string(); }
     match r.below(6) {
         0 => format!("({})", gen_unsupported(r, depth - 1)),
@@ -587,6 +699,9 @@ fn run_any(c: &Case) -> Result<(), String> {
     }
     if c.family == "classes" {
         return run_class_case(c);
+    }
+    if c.family == "named_classes" {
+        return run_named_class_case(c);
     }
     if c.family == "cache" {
         return run_cache_case(c);
@@ -617,7 +732,9 @@ impl Rng {
 
 const PATS: &[&str] = &["a", "b", "c", "ab", "abc", "a+", "b+", "[ab]", "[ab]+", "[a-c]+", "é", "[aé]+", "a|ab", "(|a)b", "a*b", "\n", "[a-c\n]", "bc", "ca", "[^a]", "aé", "é+", "x", "[a-cé]+x?",
     ".", "[^\n]+", "a{2}", "a{1,2}b", "(ab)+", "(a|b)*c", "b?c?a", "€", "[€😀]+", "a{2,}", "(a|)c", "x|\n+",
-    "a+b", "a{2,}b", "ca{0,}b", "ab?", "b{0,2}c", "(a|b?)*c", "(a*)+b", "a(|b|c)a", "[ab]{2}", "c(ab)?"];
+    "a+b", "a{2,}b", "ca{0,}b", "ab?", "b{0,2}c", "(a|b?)*c", "(a*)+b", "a(|b|c)a", "[ab]{2}", "c(ab)?",
+    // named classes in both polarities (they agree with the regex crate on the alphabet used here)
+    "\\pL+", "\\PL", "\\w+", "\\W", "\\s", "\\S+", "[^\\W]+", "\\p{Lowercase}+", "\\P{Lowercase}"];
 const LAS: &[&str] = &["a", "b", "c", "bc", "b+", "é", "[ab]", "x", "c+", "\n", "bc?", "b{1,2}", "ab?", "b|bc", "b*c", "a?b", "(ab)+", "c{2}"];
 const ALPHA: &[char] = &['a', 'b', 'c', 'é', '\n', 'x', 'a', 'b', '€', '😀', 'c', '\n'];
 
@@ -625,6 +742,28 @@ fn gen_input(r: &mut Rng, maxlen: usize) -> String {
     let n = r.below(maxlen + 1);
     (0..n).map(|_| *r.pick(ALPHA)).collect()
 }
+/// structured random regexes over {a, b, c}: concatenation, alternation (with empty branches), groups and every repetition operator, nested to `depth`
+/// (nested repetitions with the SAME operator are forced now and then: `(x{2}){2}`, `(x+)+`)
+fn gen_regex(r: &mut Rng, depth: usize) -> String {
+    const LEAVES: &[&str] = &["a", "b", "c", "[ab]", "[^a]", "ab", "."];
+    if depth == 0 { return r.pick(LEAVES).to_string(); }
+    match r.below(6) {
+        0 | 1 => { let n = 2 + r.below(2); (0..n).map(|_| gen_regex(r, depth - 1)).collect::<Vec<_>>().join("") }
+        2 => {
+            let n = 2 + r.below(2);
+            let mut br: Vec<String> = (0..n).map(|_| gen_regex(r, depth - 1)).collect();
+            if r.below(4) == 0 { let k = r.below(br.len() + 1); br.insert(k, String::new()); }
+            format!("({})", br.join("|"))
+        }
+        _ => {
+            const OPS: &[&str] = &["?", "*", "+", "{2}", "{1,2}", "{2,}", "{0,1}", "{3}", "{2,3}", "{0}", "{1,}"];
+            let op = *r.pick(OPS);
+            let inner = if r.below(4) == 0 { format!("({}){}", gen_regex(r, depth - 1), op) } else { gen_regex(r, depth - 1) };
+            format!("({}){}", inner, op)
+        }
+    }
+}
+
 /// a finite language as a regex: words of length 1..3, grouped by first letter into `x(..|..)` with probability 1/2 (factored form), else flat
 fn gen_finite(r: &mut Rng, alpha: &[char]) -> String {
     let nw = 1 + r.below(5);
@@ -709,6 +848,29 @@ fn gen_case(family: &str, r: &mut Rng) -> Case {
             let cnt = input.chars().count() + 2;
             Case { family: family.into(), modes: vec![ModeSpec { name: "M0".into(), pats, trans: vec![] }], input, start_offset: 0, ops: vec![Op::Next; cnt], with_positions: false }
         }
+        "regex" => {
+            // structured random regexes (all operators, nested) against the regex crate; now and then one long counted chain (more refinement rounds / states than
+            // any fixture) with an input one repetition short of, or exactly at, the count
+            if r.below(12) == 0 {
+                let n = 60 + r.below(90);
+                let p = format!("{}{{{}}}", *r.pick(&["a", "[ab]", "(ab|c)"]), n);
+                let unit = if p.starts_with("(ab") { "c" } else { "a" };
+                let reps = if r.below(2) == 0 { n } else { n - 1 };
+                let input: String = unit.repeat(reps);
+                let cnt = 3;
+                return Case { family: family.into(), modes: vec![ModeSpec { name: "M0".into(), pats: vec![PatSpec { p, tt: 0, la: None }], trans: vec![] }], input, start_offset: 0, ops: vec![Op::Next; cnt], with_positions: false };
+            }
+            let np = 1 + r.below(3);
+            let mut pats: Vec<PatSpec> = vec![];
+            for i in 0..np {
+                let d = 1 + r.below(3);
+                pats.push(PatSpec { p: gen_regex(r, d), tt: i, la: None });
+            }
+            let n = r.below(9);
+            let input: String = (0..n).map(|_| *r.pick(&['a', 'b', 'c', 'a', 'b'])).collect();
+            let cnt = input.chars().count() + 2;
+            Case { family: family.into(), modes: vec![ModeSpec { name: "M0".into(), pats, trans: vec![] }], input, start_offset: 0, ops: vec![Op::Next; cnt], with_positions: false }
+        }
         "modes" | "peek" | "offset" | "isolation" => {
             let nm = 1 + r.below(4);
             let mut modes = vec![];
@@ -779,8 +941,18 @@ fn gen_case(family: &str, r: &mut Rng) -> Case {
             let bad = r.below(2) == 0;
             let d = r.below(4);
             let p = if bad { gen_unsupported(r, d) } else { gen_supported(r, d) };
+            // error and success paths also with long patterns holding multi-byte characters at arbitrary byte offsets
+            let p = if r.below(4) == 0 {
+                let n = 30 + r.below(50);
+                let pad: String = (0..n).map(|_| *r.pick(&['a', 'é', '€', 'b', '😀'])).collect();
+                if r.below(2) == 0 { format!("{}{}", pad, p) } else { format!("{}{}", p, pad) }
+            } else { p };
             let in_la = r.below(4) == 0;
-            let pats = if in_la { vec![PatSpec { p: "a".into(), tt: 0, la: Some((r.below(2) == 0, p)) }] } else { vec![PatSpec { p, tt: 0, la: None }] };
+            let mut pats = if in_la { vec![PatSpec { p: "a".into(), tt: 0, la: Some((r.below(2) == 0, p)) }] } else { vec![PatSpec { p, tt: 0, la: None }] };
+            // a supported near twin of an unknown class listed first (same scanner, shared class registry)
+            if r.below(3) == 0 {
+                pats.insert(0, PatSpec { p: r.pick(&["\\pL", "\\p{Alphabetic}", "\\PL", "\\p{Uppercase}", "\\d", "[a-c]"]).to_string(), tt: 7, la: None });
+            }
             Case { family: family.into(), modes: vec![ModeSpec { name: "M0".into(), pats, trans: vec![] }],
                    input: if bad { "err".into() } else { "ok".into() }, start_offset: 0, ops: vec![], with_positions: false }
         }
@@ -788,6 +960,11 @@ fn gen_case(family: &str, r: &mut Rng) -> Case {
             let p = gen_class(r, 2);
             Case { family: family.into(), modes: vec![ModeSpec { name: "M0".into(), pats: vec![PatSpec { p, tt: 0, la: None }], trans: vec![] }],
                    input: "abcdexz0359é\n\r-^.A \t_\u{0}\u{1f}\u{7e}\u{7f}\u{80}\u{7ff}\u{800}\u{d7ff}\u{e000}\u{ffff}\u{10000}\u{10ffff}".into(), start_offset: 0, ops: vec![], with_positions: false }
+        }
+        "named_classes" => {
+            let p = gen_named_class(r, 2);
+            Case { family: family.into(), modes: vec![ModeSpec { name: "M0".into(), pats: vec![PatSpec { p, tt: 0, la: None }], trans: vec![] }],
+                   input: "aZdm05_ \t\n\ré€-^.~\u{0}\u{7f}\u{a0}\u{b2}\u{2167}\u{3b1}\u{391}\u{10ffff}".into(), start_offset: 0, ops: vec![], with_positions: false }
         }
         "positions" => {
             let pats = gen_pats(r, false, npat, 0);
